@@ -149,7 +149,7 @@ CHECKS['C06'] = dict(
 
 
 SHIM_WRAP = '-Wl,' + ','.join('--wrap=' + f for f in (
-    'clock_gettime timerfd_create timerfd_settime close pipe dup epoll_create1 eventfd signalfd inotify_init1 syscall epoll_wait write read').split())
+    'clock_gettime timerfd_create timerfd_settime close pipe dup epoll_create1 eventfd signalfd inotify_init1 syscall epoll_wait epoll_ctl write read').split())
 ALL_LIBS = ['core', 'thpool', 'structs', 'mem', 'utils']
 
 
@@ -171,7 +171,7 @@ _WORLD = {
     'C01': ((2, 1, 5), (3, 2, 7)),
     'C02': ((2, 1, 4), (3, 2, 6)),
     'C03': ((2, 1, 3), (2, 2, 5)),
-    'C04': ((2, 2, 3), (2, 3, 5)),
+    'C04': ((2, 2, 2), (2, 2, 4)),
     'C07': ((2, 1, 6), (3, 2, 8)),
     'C08': ((2, 0, 4), (3, 0, 6)),
     'C09': ((1, 0, 4), (1, 0, 6)),
@@ -198,3 +198,25 @@ for _p, (_q, _t) in _WORLD.items():
                       assumptions=['single thread, one context', 'real kernel pipes/epoll, virtual time through the link-time shim', 'handles passed are live references owned by the caller'],
                       parts=[world_part('w', quick=[_w(_p, _q[0], _q[1], _q[2], 200)] + [_w(_p, x[0], x[1], x[2], 200) for x in _xq],
                                         thorough=[_w(_p, _t[0], _t[1], _t[2], 2400, 2)] + [_w(_p, x[0], x[1], x[2], 1200, 2) for x in _xt])])
+
+
+def _c14_runs(threads, prog, budget, dl, foreign=0, workers=8):
+    return ['--threads', threads, '--prog', prog, '--foreign', foreign, '--budget', budget, '--deadline', dl, '--workers', workers, '--prune', 1]
+
+
+CHECKS['C14'] = dict(
+    title='independent contexts, thread-confined modules',
+    rule='every interleaving (scheduling points between API calls of each thread and at every pthread operation inside the library) of N threads each running its own context '
+         'program, within the preemption budget; per schedule: TSan (tsan part) / ASan (asan part) and per-context observation log identical to the same program run alone; '
+         'plus every module call from a foreign thread (holding another context, or none) must fail with a permission error without effect',
+    bounds=dict(quick='2 threads: narrow program budget 3, wide program budget 2, task program budget 2; foreign-thread calls budget 2; TSan + ASan',
+                thorough='3 threads narrow budget 3; 2 threads wide budget 3, task budget 3; TSan + ASan'),
+    assumptions=['sequentially consistent interleavings; scheduling points only between API calls and at pthread operations (data races inside a call are left to TSan happens-before analysis)'],
+    parallel=2,
+    parts=[schedx_part('tsan', 'c14_ctx', ALL_LIBS, variant='tsan',
+                       quick=[_c14_runs(2, 'narrow', 3, 100), _c14_runs(2, 'wide', 2, 100), _c14_runs(2, 'task', 2, 100), _c14_runs(2, 'narrow', 2, 100, 1), _c14_runs(2, 'narrow', 2, 100, 2)],
+                       thorough=[_c14_runs(3, 'narrow', 3, 1500), _c14_runs(2, 'wide', 3, 1500), _c14_runs(2, 'task', 3, 1500), _c14_runs(2, 'narrow', 3, 600, 1), _c14_runs(2, 'narrow', 3, 600, 2)]),
+           schedx_part('asan', 'c14_ctx', ALL_LIBS,
+                       quick=[_c14_runs(2, 'wide', 2, 100), _c14_runs(2, 'task', 2, 100), _c14_runs(2, 'narrow', 2, 100, 1)],
+                       thorough=[_c14_runs(3, 'narrow', 2, 900), _c14_runs(2, 'wide', 2, 900), _c14_runs(2, 'task', 2, 900)])],
+)
